@@ -82,12 +82,11 @@ Fixpoint list_outputs (seen : list bytes) (rs : list (bytes * bytes)) : list (by
     end
   end.
 
-(* generateChunkCSS lists one entry per compile result (no merging by source
-   index): (source index, bytesInOutput) per owned segment *)
+(* generateChunkCSS (after fix ea1db64): metaOrder / metaBytes over the compile
+   results with a valid source index, one entry per file with the sum of its
+   slices - the same computation as generateChunkJS's *)
 Definition css_output_inputs (prefix : bytes) (nf nc : Z) (pathOf : Z -> Z -> bytes) (segs : list segment) : list (Z * Z) :=
-  flat_map (fun sg : segment => match fst sg with
-                                | Some s => [(s, slice_count prefix nf nc pathOf (snd sg))]
-                                | None => [] end) segs.
+  output_inputs prefix nf nc pathOf segs.
 
 (* the pieces of the whole output if every segment is split on its own and the
    pieces are glued the way the joiner concatenates the bytes *)
